@@ -520,3 +520,161 @@ Proof.
       unfold point_spec. rewrite Ej. apply Hexp; assumption.
     + apply A; assumption.
 Qed.
+
+(* ---------------------------------------------------------------------------------------- *)
+(* all contours of a glyph *)
+
+(* endPtsOfContours increasing and inside the glyph's points, from `begin` on *)
+Fixpoint contours_wf (ncoords begin : Z) (endpts : list Z) : Prop :=
+  match endpts with
+  | [] => True
+  | e :: r => begin <= e < ncoords /\ contours_wf ncoords (e + 1) r
+  end.
+
+Fixpoint contour_ranges (begin : Z) (endpts : list Z) : list (Z * Z) :=
+  match endpts with [] => [] | e :: r => (begin, e) :: contour_ranges (e + 1) r end.
+
+Lemma contour_ranges_lower : forall endpts ncoords begin s e,
+  contours_wf ncoords begin endpts -> In (s, e) (contour_ranges begin endpts) -> begin <= s /\ s <= e < ncoords.
+Proof.
+  induction endpts as [|e0 r IH]; intros ncoords begin s e W H; [destruct H|].
+  destruct W as [W0 W]. cbn [contour_ranges] in H. destruct H as [H|H].
+  - injection H as <- <-. lia.
+  - destruct (IH ncoords (e0 + 1) s e W H). lia.
+Qed.
+
+(* the contour-by-contour result for a whole glyph: with well-formed contour end points the loop
+   never fails; each contour that has a referenced point satisfies the specification; contours
+   without referenced points and all points outside the contours (the phantom points) keep their
+   explicit deltas *)
+Lemma infer_contours_spec : forall endpts m coords begin deltas,
+  0 <= begin -> contours_wf (len coords) begin endpts ->
+  (len coords <= Z.of_nat (length deltas)) ->
+  (forall j d, begin <= j -> ref_at m j = Some d -> dnth deltas j = qd d) ->
+  exists deltas',
+    infer_contours m coords begin endpts deltas = Ok deltas' /\
+    length deltas' = length deltas /\
+    (forall j, 0 <= j -> (forall s e, In (s, e) (contour_ranges begin endpts) -> ~ (s <= j <= e)) ->
+               dnth deltas' j = dnth deltas j) /\
+    (forall s e, In (s, e) (contour_ranges begin endpts) ->
+       ((forall j, s <= j <= e -> ref_at m j = None) -> forall j, s <= j <= e -> dnth deltas' j = dnth deltas j) /\
+       ((exists r, s <= r <= e /\ referenced m r) -> forall j, s <= j <= e -> point_spec m coords s e j (dnth deltas' j))).
+Proof.
+  induction endpts as [|e0 rest IH]; intros m coords begin deltas Hb W Hlen Hexp.
+  - exists deltas. cbn [infer_contours contour_ranges]. split; [reflexivity|]. split; [reflexivity|].
+    split; [intros; reflexivity|]. intros s e [].
+  - destruct W as [W0 W]. cbn [infer_contours].
+    assert (G : (e0 <? begin) || (len coords <=? e0) = false).
+    { apply orb_false_iff. split; [apply Z.ltb_ge; lia|apply Z.leb_gt; lia]. }
+    rewrite G.
+    destruct (infer_one_contour_spec m coords begin e0 deltas) as (d1 & E1 & L1 & Out1 & None1 & Some1);
+      [lia|lia|lia|intros j d Hj Hr; apply Hexp; [lia|exact Hr]|].
+    rewrite E1. cbn [bind].
+    destruct (IH m coords (e0 + 1) d1) as (d2 & E2 & L2 & Out2 & In2); [lia|exact W|rewrite L1; exact Hlen| |].
+    { intros j d Hj Hr. rewrite Out1; [|lia|lia]. apply Hexp; [lia|exact Hr]. }
+    exists d2. split; [exact E2|]. split; [rewrite L2; exact L1|]. split.
+    + intros j Hj Hnot. rewrite Out2; [|exact Hj|].
+      * apply Out1; [exact Hj|]. apply (Hnot begin e0). left. reflexivity.
+      * intros s e Hin. apply Hnot. right. exact Hin.
+    + intros s e Hin. cbn [contour_ranges] in Hin. destruct Hin as [Hin|Hin].
+      * injection Hin as <- <-.
+        assert (Keep : forall j, begin <= j <= e0 -> dnth d2 j = dnth d1 j).
+        { intros j Hj. apply Out2; [lia|]. intros s e Hin.
+          destruct (contour_ranges_lower rest (len coords) (e0 + 1) s e W Hin). lia. }
+        split.
+        -- intros Hn j Hj. rewrite Keep by exact Hj. rewrite (None1 Hn). reflexivity.
+        -- intros Hs j Hj. rewrite Keep by exact Hj. apply Some1; assumption.
+      * destruct (In2 s e Hin) as [A B].
+        destruct (contour_ranges_lower rest (len coords) (e0 + 1) s e W Hin) as [Lo Hi].
+        split.
+        -- intros Hn j Hj. rewrite (A Hn j Hj). apply Out1; lia.
+        -- exact B.
+Qed.
+
+(* malformed contour end points (not increasing, or beyond the glyph's points) are rejected with an
+   error; before the fix the first case panicked inside BTreeMap::range *)
+Lemma infer_contours_rejects m coords begin e rest deltas :
+  (e < begin \/ len coords <= e) -> infer_contours m coords begin (e :: rest) deltas = Err BadValue.
+Proof.
+  intros H. cbn [infer_contours].
+  assert (G : (e <? begin) || (len coords <=? e) = true).
+  { apply orb_true_iff. destruct H; [left; apply Z.ltb_lt; lia|right; apply Z.leb_le; lia]. }
+  rewrite G. reflexivity.
+Qed.
+
+(* ---------------------------------------------------------------------------------------- *)
+(* the dense map of explicit deltas *)
+
+Lemma nth_error_set_nth_eq {A} (v : A) : forall l i, (i < length l)%nat -> nth_error (set_nth l i v) i = Some v.
+Proof.
+  induction l as [|x l IH]; intros i H; cbn [length] in H; [lia|].
+  destruct i; cbn [set_nth nth_error]; [reflexivity|]. apply IH. lia.
+Qed.
+
+Lemma nth_error_set_nth_neq {A} (v : A) : forall l i j, i <> j -> nth_error (set_nth l i v) j = nth_error l j.
+Proof.
+  induction l as [|x l IH]; intros i j H; [reflexivity|].
+  destruct i; destruct j; cbn [set_nth nth_error]; try reflexivity; try lia. apply IH. lia.
+Qed.
+
+(* the delta recorded for point i: that of the last pair naming i (a map insert replaces) *)
+Fixpoint last_assoc (i : Z) (pairs : list (Z * (Z * Z))) (acc : option (Z * Z)) : option (Z * Z) :=
+  match pairs with
+  | [] => acc
+  | (k, d) :: r => last_assoc i r (if k =? i then Some d else acc)
+  end.
+
+Lemma fold_emap_ref : forall pairs (m : emap) i,
+  0 <= i < len m -> Forall (fun p => 0 <= fst p < len m) pairs ->
+  ref_at (fold_left (fun m p => set_nth m (Z.to_nat (fst p)) (Some (snd p))) pairs m) i
+  = last_assoc i pairs (ref_at m i).
+Proof.
+  induction pairs as [|[k d] r IH]; intros m i Hi Hp; cbn [fold_left last_assoc]; [reflexivity|].
+  inversion Hp as [|? ? Hk Hr]; subst. cbn [fst snd] in *.
+  rewrite IH.
+  - f_equal. unfold ref_at, nth_opt.
+    destruct (i <? 0) eqn:E; [apply Z.ltb_lt in E; lia|].
+    destruct (k =? i) eqn:Ek.
+    + apply Z.eqb_eq in Ek. subst k. rewrite nth_error_set_nth_eq; [reflexivity|unfold len in Hi; lia].
+    + apply Z.eqb_neq in Ek. rewrite nth_error_set_nth_neq; [reflexivity|lia].
+  - unfold len. rewrite set_nth_length. exact Hi.
+  - eapply Forall_impl; [|exact Hr]. cbv beta. intros p Hpp. unfold len. rewrite set_nth_length. exact Hpp.
+Qed.
+
+Lemma ref_at_repeat_none n i : ref_at (repeat None n) i = None.
+Proof.
+  unfold ref_at, nth_opt. destruct (i <? 0); [reflexivity|].
+  destruct (nth_error (repeat None n) (Z.to_nat i)) as [o|] eqn:E; [|reflexivity].
+  apply nth_error_In in E. apply repeat_spec in E. subst o. reflexivity.
+Qed.
+
+(* build_emap: an error exactly when some point number is out of range (including the phantom
+   points np = points + 4), otherwise the map of last deltas *)
+Lemma build_emap_spec np pairs :
+  0 <= np -> Forall (fun p => 0 <= fst p) pairs ->
+  (Exists (fun p => np <= fst p) pairs /\ build_emap np pairs = Err BadIndex)
+  \/ (Forall (fun p => fst p < np) pairs /\
+      exists m, build_emap np pairs = Ok m /\ len m = np /\
+                forall i, 0 <= i < np -> ref_at m i = last_assoc i pairs None).
+Proof.
+  intros Hnp Hpos. unfold build_emap.
+  destruct (existsb (fun p => np <=? fst p) pairs) eqn:E.
+  - left. split; [|reflexivity]. apply existsb_exists in E as (p & Hin & Hp). apply Exists_exists.
+    exists p. split; [exact Hin|apply Z.leb_le; exact Hp].
+  - right.
+    assert (B : Forall (fun p => fst p < np) pairs).
+    { apply Forall_forall. intros p Hin.
+      destruct (Z_lt_le_dec (fst p) np) as [C|C]; [exact C|exfalso].
+      assert (existsb (fun p => np <=? fst p) pairs = true).
+      { apply existsb_exists. exists p. split; [exact Hin|apply Z.leb_le; exact C]. }
+      rewrite E in H. discriminate. }
+    split; [exact B|]. eexists. split; [reflexivity|].
+    assert (L0 : len (repeat (@None (Z * Z)) (Z.to_nat np)) = np) by (unfold len; rewrite repeat_length; lia).
+    assert (L : forall ps (m : emap), length (fold_left (fun m p => set_nth m (Z.to_nat (fst p)) (Some (snd p))) ps m) = length m).
+    { induction ps as [|p ps IHp]; intros m; cbn [fold_left]; [reflexivity|]. rewrite IHp, set_nth_length. reflexivity. }
+    split; [unfold len; rewrite L, repeat_length; lia|].
+    intros i Hi. rewrite fold_emap_ref.
+    + rewrite ref_at_repeat_none. reflexivity.
+    + rewrite L0. exact Hi.
+    + rewrite L0. rewrite Forall_forall in *. intros p Hin. specialize (Hpos p Hin). specialize (B p Hin). lia.
+Qed.
